@@ -100,11 +100,26 @@ func (n *nilSigner) Sign(io.Reader, []byte) ([]byte, error) {
 	return nil, nil
 }
 
+// c20alsoVerifier makes mkSigner return signers that implement cose.Verifier as well (a key object
+// serving both roles); the C20 workload runs sequentially, so a package variable is enough.
+var c20alsoVerifier bool
+
+// signerVerifier is a signer whose type also offers Verify (and accepts everything).
+type signerVerifier struct{ cose.Signer }
+
+func (signerVerifier) Verify(content, signature []byte) error { return nil }
+
 func mkSigner(alg cose.Algorithm, f int) cose.Signer {
+	var s cose.Signer
 	if f == fEmptyNil {
-		return &nilSigner{alg: alg}
+		s = &nilSigner{alg: alg}
+	} else {
+		s = faultSigner(alg, f)
 	}
-	return faultSigner(alg, f)
+	if c20alsoVerifier {
+		return signerVerifier{s}
+	}
+	return s
 }
 
 // noEmptySig parses emitted bytes and reports whether any signature bstr in
@@ -169,7 +184,10 @@ func runC20(c *Ctx) {
 		parent := &cose.Sign1Message{Headers: cose.Headers{Protected: cose.ProtectedHeader{int64(1): alg}}, Payload: []byte("parent"), Signature: mon.FixedSig}
 
 		// ---------- single-call signing entry points ----------
-		for f := 0; f < nSignFaults; f++ {
+		// (every fault twice: with a plain signer and with a signer that is a Verifier as well)
+		for ff := 0; ff < 2*nSignFaults; ff++ {
+			f := ff % nSignFaults
+			c20alsoVerifier = ff >= nSignFaults
 			failing, wantErr := failingFault(f)
 			empty := f == fEmptyNil || f == fEmptyZero
 			type result struct {
@@ -227,6 +245,9 @@ func runC20(c *Ctx) {
 				rec.Eval(1)
 				rec.Event(name)
 				key := name + "/" + faultNames[f]
+				if c20alsoVerifier {
+					key += "/signer-is-also-a-verifier"
+				}
 				rec.Class(key)
 				if failing {
 					if res.err == nil {
@@ -286,6 +307,7 @@ func runC20(c *Ctx) {
 			}
 		}
 
+		c20alsoVerifier = false
 		// ---------- SignMessage.Sign, n = 1..4: 5^n vectors ----------
 		for n := 1; n <= 4; n++ {
 			total := 1
@@ -369,8 +391,11 @@ func runC20(c *Ctx) {
 
 		// ---------- verifier faults ----------
 		errOther := errors.New("verifier backend unavailable")
-		vfaults := []error{nil, cose.ErrVerification, errOther}
-		vnames := []string{"ok", "ErrVerification", "other-error"}
+		// (besides plain failures: errors that WRAP the sentinels the library itself interprets - a verifier
+		//  backend may well report "algorithm not supported" or an EOF of its own)
+		vfaults := []error{nil, cose.ErrVerification, errOther, fmt.Errorf("backend: %w", cose.ErrAlgorithmNotSupported), fmt.Errorf("backend: %w", cose.ErrAlgorithmMismatch),
+			fmt.Errorf("backend: %w", cose.ErrEmptySignature), fmt.Errorf("backend: %w", cose.ErrMissingPayload), fmt.Errorf("backend: %w", cose.ErrAlgorithmNotFound), io.EOF}
+		vnames := []string{"ok", "ErrVerification", "other-error", "wraps-ErrAlgorithmNotSupported", "wraps-ErrAlgorithmMismatch", "wraps-ErrEmptySignature", "wraps-ErrMissingPayload", "wraps-ErrAlgorithmNotFound", "EOF"}
 		hashEnv := func() []byte {
 			wm := &gen.WSign1{L: gen.WLayer{ProtMap: refcbor.NMap(refcbor.NInt(1), refcbor.NInt(int64(alg)), refcbor.NInt(258), refcbor.NInt(-16))}, Payload: make([]byte, 32), Sig: mon.FixedSig, Tagged: true}
 			return wm.Bytes()
@@ -459,22 +484,26 @@ func runC20(c *Ctx) {
 		//  also offer VerifyDigest; in round 0 all slots carry byte-identical protected headers)
 		for _, digestCapable := range []bool{false, true} {
 			for n := 1; n <= 4; n++ {
+				K := len(vfaults) + 1 // every verifier fault, plus a panic
+				if n == 4 {
+					K = 4 // (n = 4 keeps to ok / ErrVerification / other / panic: 9^4 adds nothing over 9^3)
+				}
 				total := 1
 				for j := 0; j < n; j++ {
-					total *= 4
+					total *= K
 				}
 				for v := 0; v < total; v++ {
 					m := &cose.SignMessage{Headers: cose.Headers{Protected: cose.ProtectedHeader{}, Unprotected: cose.UnprotectedHeader{}}, Payload: payload}
 					vs := make([]cose.Verifier, n)
 					x := v
 					name := ""
-					firstBad := -1 // 0..2 index into vfaults, 3 = panic
+					firstBad := -1 // index into vfaults, K-1 = panic
 					for j := 0; j < n; j++ {
-						f := x % 4
-						x /= 4
+						f := x % K
+						x /= K
 						m.Signatures = append(m.Signatures, &cose.Signature{Headers: mkHeaders(), Signature: mon.FixedSig})
 						sv := mon.SpyVerifier{Alg: alg}
-						if f < 3 {
+						if f < K-1 {
 							sv.Err = vfaults[f]
 							name += vnames[f] + ","
 						} else {
@@ -502,15 +531,23 @@ func runC20(c *Ctx) {
 						if err != nil || panicked {
 							rec.Violate("ok-vector-failed", key, fmt.Sprintf("all verifiers accepted but Verify failed: %v (panicked=%v)", err, panicked), in)
 						}
-					case firstBad == 3:
+					case firstBad == K-1:
 						if !panicked && err == nil {
 							rec.Violate("verifier-error-lost", key, "a verifier panicked and Verify returned nil", in)
 						}
 					default:
 						if panicked {
 							rec.Event("SignMessage.Verify:later-panic-reached") // verifiers after a failing one were still consulted: not judged
-						} else if err == nil || (!errors.Is(err, cose.ErrVerification) && !errors.Is(err, errOther)) {
-							rec.Violate("verifier-error-lost", key, fmt.Sprintf("a verifier failed, Verify returned %v", err), in)
+						} else {
+							injected := false
+							for _, fe := range vfaults[1:] {
+								if err != nil && errors.Is(err, fe) {
+									injected = true
+								}
+							}
+							if err == nil || !injected {
+								rec.Violate("verifier-error-lost", key, fmt.Sprintf("a verifier failed, Verify returned %v", err), in)
+							}
 						}
 					}
 				}
